@@ -55,6 +55,9 @@ var units = []unit{
 	// (the specification says unknown logical types are ignored): still the nanosecond convention
 	{"long-nanos-objectform", `{"type":"long"}`, func(i int64) time.Time { return time.Unix(0, i).UTC() },
 		func(t time.Time) int64 { return t.UnixNano() }, math.MinInt64, math.MaxInt64},
+	// a logical type that is not defined for the primitive it annotates is ignored as well: "date" on a long
+	{"long-nanos-date-on-long", `{"type":"long","logicalType":"date"}`, func(i int64) time.Time { return time.Unix(0, i).UTC() },
+		func(t time.Time) int64 { return t.UnixNano() }, math.MinInt64, math.MaxInt64},
 	{"long-nanos-unknown-logical", `{"type":"long","logicalType":"made-up-by-the-caller"}`, func(i int64) time.Time { return time.Unix(0, i).UTC() },
 		func(t time.Time) int64 { return t.UnixNano() }, math.MinInt64, math.MaxInt64},
 }
